@@ -7,6 +7,7 @@ pub mod c13;
 pub mod c14;
 pub mod c15;
 pub mod c16;
+pub mod c17;
 pub mod common;
 
 pub fn dispatch(ctx: &Ctx, args: &[String]) -> i32 {
@@ -17,6 +18,7 @@ pub fn dispatch(ctx: &Ctx, args: &[String]) -> i32 {
         "C14" => c14::run(ctx),
         "C15" => c15::run(ctx),
         "C16" => c16::run(ctx),
+        "C17" => c17::run(ctx),
         "C16-child" => c16::child(ctx, args),
         "dump" => common::dump(ctx, args),
         other => {
